@@ -512,7 +512,8 @@ func (t *taskState) sharedOp(i int, po *prepOp) {
 }
 
 func (t *taskState) checkBytes(i int, po *prepOp, b []byte, err error) {
-	if !propRules[t.x.prop].solo {
+	if t.x.prop != "C07" {
+		// what Marshal returns after a history is not what C10 / C11 / C19 state
 		if errText(err) != po.expErr || !world.SameEncoding(po.ti.T, b, po.expBytes) {
 			t.probe("other_property:encoding_differs_from_solo")
 		}
